@@ -1052,3 +1052,15 @@ Proof.
   - intro a. unfold zn_mulG, zn_neg. rewrite Z.mod_mod by lia.
     rewrite (Zminus_mod tap_n a), (Zminus_mod tap_n (a mod tap_n)), Z.mod_mod by lia. reflexivity.
 Qed.
+
+(* (d) a sample evaluated inside Coq: the root the implementation reports for ex_leaves
+   (taproot.AssembleTaprootScriptTree, 2026-09-25) *)
+Example ex_root_vector :
+  match assemble_c ex_leaves with
+  | Done (Some root, st) => to_hex (tnode_hash root) = to_hex (map b8
+      [0x01;0x61;0xc5;0x2c;0x48;0x05;0x06;0x0c;0x6b;0xb1;0x7f;0x35;0x31;0x48;0x21;0x58;
+       0x58;0xf0;0x8b;0x88;0x16;0xd6;0x76;0x9b;0x6c;0x2a;0xed;0x91;0x9e;0x16;0xf1;0xee]%N)
+      /\ length st = 3
+  | _ => False
+  end.
+Proof. vm_compute. split; reflexivity. Qed.
